@@ -239,7 +239,7 @@ def c06_4(R):
                 R.fail([b.name, "removal-not-under(is_mtu_probe&&!is_delivered)", "guards=" + ",".join(sorted(conds))], "%s can remove (and thereby re-segment) a segment that is not an undelivered MTU probe" % name, where=s.where(), instance="resegment-only-undelivered-probe")
 
 
-@rule("C06.5", ["C06", "C02"], ["E3"], "an RTO retransmission backs off: congestion controller, RTO estimator and recovery are told, then the timer is re-armed",
+@rule("C06.5", ["C06", "C02", "C16"], ["E3"], "an RTO retransmission backs off: congestion controller, RTO estimator and recovery are told, then the timer is re-armed",
       "Both RTO paths of send_tx_queue (first undelivered segment, FIN) call congestion_controller.on_retransmission_timeout, rtte.on_rto_timeout and recovery.on_rto_timeout and then "
       "timers.retransmit.arm(restart = true), under timers.retransmit.expired() = true; for a data segment they are skipped only for MTU probes.")
 def c06_5(R):
@@ -358,3 +358,96 @@ def c06_6(R):
         R.ok("rto-leaves-fast-recovery", ro.name, "Recovering -> IgnoringUntilRecoveryPoint")
     else:
         R.fail([ro.name, "no-transition(Recovering->IgnoringUntilRecoveryPoint)"], "an RTO during fast recovery no longer suspends fast retransmit", where=ro.where(), instance="rto-leaves-fast-recovery")
+
+
+@rule("C06.7", ["C06"], ["E4", "E2", "E7"], "duplicate-ACK counting and the ends of a recovery episode",
+      "count_sack_duplicates returns prev + 1 for a SACK-carrying ACK below the threshold and 0 for a plain cumulative ACK; count_non_sack_duplicates returns prev.saturating_add(1) for a duplicate and 0 "
+      "(remembering the new ack_nr / window) otherwise; Recovery::on_ack stores their result back into the same dup_acks it passed in, clears it when the queue is empty, leaves "
+      "IgnoringUntilRecoveryPoint exactly under ack_nr >= recovery_point and completes a recovery (on_recovered, back to CountingDuplicates) exactly under ack_nr >= rec.recovery_point.")
+def c06_7(R):
+    cs = R.body("recovery::count_sack_duplicates")
+    cn = R.body("recovery::count_non_sack_duplicates")
+
+    def ret_values(b):
+        out = []
+        for it, cls in ret_assignments(b):
+            if isinstance(it, Stmt) and it.rv.kind == "use":
+                bt, k = int_affine(b, it.rv.ops[0])
+                out.append((it, cls, bt, k))
+            elif isinstance(it, Term):
+                out.append((it, cls, None, None))
+            else:
+                out.append((it, cls, None, None))
+        return out
+    inc = zero = thr = other = 0
+    for it, cls, bt, k in ret_values(cs):
+        if bt is not None and bt.kind == "param" and bt.root[1] == 3 and k == 1:
+            inc += 1
+        elif cls == "const:0":
+            zero += 1
+        elif cls in ("item:constants::SACK_DUP_THRESH", "const:3"):
+            thr += 1
+        else:
+            other += 1
+    if inc == 1 and zero == 1 and thr == 1 and other == 0:
+        R.ok("dup-counter(sack)", cs.name, "threshold | prev + 1 | 0")
+    else:
+        R.fail([cs.name, "return-values", "prev+1=%d zero=%d thresh=%d other=%d" % (inc, zero, thr, other)], "count_sack_duplicates no longer returns {SACK_DUP_THRESH, prev + 1, 0}: duplicate ACKs are not counted (no fast retransmit) or never reset", where=cs.where(), instance="dup-counter(sack)")
+    inc = zero = other = 0
+    for it, cls in ret_assignments(cn):
+        t_ = trace(cn, it.rv.ops[0]) if isinstance(it, Stmt) and it.rv.kind == "use" else None
+        if t_ is not None and t_.kind == "call" and (t_.root[1].resolved or "").endswith("saturating_add") and trace(cn, t_.root[1].args[0]).kind == "param" and trace(cn, t_.root[1].args[0]).root[1] == 3 and t_.root[1].args[1].kind == "const" and t_.root[1].args[1].scalar == 1:
+            inc += 1
+        elif cls == "const:0":
+            zero += 1
+        else:
+            other += 1
+    stores = [s_ for s_ in cn.stmts() if s_.place.local == 4 and s_.place.proj == ["*"] and s_.rv.kind in ("agg", "use")]
+    if inc == 1 and zero == 1 and other == 0 and stores:
+        R.ok("dup-counter(plain)", cn.name, "prev.saturating_add(1) | 0 and remember the ACK")
+    else:
+        R.fail([cn.name, "return-values", "prev+1=%d zero=%d other=%d remembers=%s" % (inc, zero, other, bool(stores))], "count_non_sack_duplicates no longer returns {prev + 1, 0} / no longer remembers the last ACK", where=cn.where(), instance="dup-counter(plain)")
+    oa = R.body("recovery::Recovery::on_ack")
+    DA = "RecoveryPhase::CountingDuplicates.dup_acks"
+    nst = 0
+    for t in oa.calls():
+        if call_matches(t, ("recovery::count_sack_duplicates", "recovery::count_non_sack_duplicates")):
+            prev_ok = trace(oa, t.args[2]).last_field == DA
+            def _wf(s_):
+                if s_.place.proj == ["*"]:  # `*dup_acks = ..` through the `&mut` bound by the match
+                    return trace(oa, Place({"l": s_.place.local, "p": []})).last_field
+                return written_field(oa, s_)
+            stored = any(_wf(s_) == DA and (lambda tt: tt.kind == "call" and tt.root[1] is t)(trace(oa, s_.rv.ops[0])) for s_ in oa.stmts() if s_.rv.ops)
+            nst += 1
+            if prev_ok and stored:
+                R.ok("dup-counter-threaded", short_callee(t.resolved), "*dup_acks = f(.., *dup_acks)")
+            else:
+                R.fail([oa.name, "dup_acks-threading", short_callee(t.resolved), "prev=%s stored=%s" % (prev_ok, stored)], "the duplicate-ACK count is not threaded through %s (passed in and stored back)" % short_callee(t.resolved), where=t.where(), instance="dup-counter-threaded")
+    R.floor("duplicate counters called from on_ack", nst, 2)
+
+    def is_ack(o):
+        return trace(oa, o).last_field == "UtpHeader.ack_nr"
+    # phase changes
+    for s_ in oa.stmts():
+        if written_field(oa, s_) != "Recovery.phase" or not s_.rv.ops:
+            continue
+        cls = classify(oa, s_.rv.ops[0])
+        if "CountingDuplicates" not in cls:
+            continue
+        descs = [d for c, truth, d, *_ in controlling(oa, s_.bb)]
+        from_ign = any("IgnoringUntilRecoveryPoint" in d for d in descs)
+        from_rec = any(d.startswith("discr:") and d.endswith("=Recovering") for d in descs)
+        if from_ign:
+            ok = guarded(oa, s_.bb, "le", lambda o: trace(oa, o).last_field == "RecoveryPhase::IgnoringUntilRecoveryPoint.recovery_point", is_ack, strict=False)
+            nm = "ignoring=>counting"
+        elif from_rec:
+            ok = guarded(oa, s_.bb, "le", lambda o: trace(oa, o).last_field == "Recovering.recovery_point", is_ack, strict=False)
+            nm = "recovering=>counting"
+        else:
+            continue
+        if ok:
+            R.ok("recovery-episode-end", nm, "exactly under ack_nr >= recovery_point")
+        else:
+            R.fail([oa.name, nm, "not-under(ack_nr>=recovery_point)", ",".join(sorted(d for d in descs if "PartialOrd" in d))], "the %s transition is no longer taken exactly when the cumulative ACK reaches the recovery point" % nm, where=s_.where(), instance="recovery-episode-end")
+    rcv = [t for t in oa.calls() if call_matches(t, ("CongestionController::on_recovered",))]
+    R.floor("on_recovered call", len(rcv), 1)
